@@ -28,7 +28,12 @@ type asConfig struct {
 	RelaunchFail []string `json:"relaunchFail,omitempty"`
 	HookFail     []string `json:"hookFail"` // [actor, hook]
 	// the following are used by random / directed scenarios only (not part of the TLC model)
-	HookFailMode       string              `json:"hookFailMode,omitempty"`       // "" = the hook returns an error, "panic" = it panics
+	HookFailMode string `json:"hookFailMode,omitempty"` // "" = the hook returns an error, "panic" = it panics
+	// KillFail: actors whose OnKill handler panics (a failure while the actor is already stopping)
+	KillFail []string `json:"killFail,omitempty"`
+	// NoProvider: actors spawned without an ActorProvider: a restart keeps the Go object, which resets its own fields in
+	// OnRestarted (and counts itself as a new instance); resetting the behaviour stack is the library's part
+	NoProvider         []string            `json:"noProvider,omitempty"`
 	FailMode           string              `json:"failMode,omitempty"`           // "" = handlers report failures with ctx.Failed, "panic" = they panic
 	KilledFail         []string            `json:"killedFail,omitempty"`         // actors whose behaviour fails on a child's OnKilled notification
 	LateSpawn          []string            `json:"lateSpawn,omitempty"`          // actors that spawn one more child when a child dies while they are being killed
@@ -224,6 +229,11 @@ func (a *scriptActor) OnPreRestart(ctx vivid.RestartContext) error {
 func (a *scriptActor) OnRestarted(ctx vivid.RestartContext) error {
 	a.x.mu.Lock()
 	a.x.restarts[a.name]++
+	if a.has(a.x.sc.Cfg.NoProvider) {
+		a.x.inst[a.name]++
+		a.inst = a.x.inst[a.name]
+		a.gotKill, a.lateDone, a.handling, a.depth, a.bstack = false, false, 0, 0, nil
+	}
 	a.x.mu.Unlock()
 	ok := !a.hookFails("restarted")
 	a.x.ev(map[string]any{"e": "Hook", "a": a.name, "k": "restarted", "v": b2i(ok), "i": a.inst})
@@ -295,6 +305,10 @@ func (a *scriptActor) handle(ctx vivid.ActorContext, depth int) {
 	case *vivid.OnKill:
 		a.gotKill = true
 		x.ev(map[string]any{"e": "Deliv", "a": a.name, "k": "kill", "i": a.inst, "v": b2i(m.Poison)})
+		if a.has(x.sc.Cfg.KillFail) {
+			x.ev(map[string]any{"e": "Fail", "a": a.name, "k": "kill", "v": 1})
+			panic("failure while handling OnKill")
+		}
 	case *vivid.OnKilled:
 		if m.Ref.Equals(ctx.Ref()) {
 			x.ev(map[string]any{"e": "Deliv", "a": a.name, "k": "killed", "p": a.name, "i": a.inst})
@@ -499,8 +513,14 @@ var asDecision = map[string]vivid.SupervisionDecision{
 }
 
 func (x *asExec) actorOptions(name string) []vivid.ActorOption {
-	opts := []vivid.ActorOption{vivid.WithActorName(name),
-		vivid.WithActorProvider(vivid.ActorProviderFN(func() vivid.Actor { return x.newActor(name) }))}
+	opts := []vivid.ActorOption{vivid.WithActorName(name)}
+	noProvider := false
+	for _, n := range x.sc.Cfg.NoProvider {
+		noProvider = noProvider || n == name
+	}
+	if !noProvider {
+		opts = append(opts, vivid.WithActorProvider(vivid.ActorProviderFN(func() vivid.Actor { return x.newActor(name) })))
+	}
 	if d, ok := x.sc.Cfg.Decision[name]; ok {
 		maker := vivid.SupervisionStrategyDecisionMakerFN(func(sctx vivid.SupervisionContext) (vivid.SupervisionDecision, string) {
 			failing := ""
